@@ -424,6 +424,7 @@ class World:
         manager-originated traffic the model does not enumerate)."""
         return x.logger or x.A or bool(x.S & self.MGR_TYPES)
 
+    ORDER_TOKEN_TYPES = frozenset({40, 41, 42, 43, 44, 45, P.MT_CLIENT_CLOSED, P.MT_MESSAGE_TRAFFIC, P.MT_TIMING_MESSAGE})
     MGR_TYPES = frozenset({P.MT_FAILED_MESSAGE, P.MT_CLIENT_INFO, P.MT_CLIENT_CLOSED, P.MT_ACTIVE_CLIENTS,
                            P.MT_MESSAGE_TRAFFIC, P.MT_TIMING_MESSAGE, 40, 41, 42, 43, 44, 45})
 
@@ -745,6 +746,14 @@ class World:
     def _on_mgr_frame(self, m: MMod, fr: P.Frame):
         t = fr.msg_type
         self.step_mgr.setdefault(m.idx, []).append(fr)
+        if "order" in self.oracles and t in self.ORDER_TOKEN_TYPES:
+            # manager-originated messages whose content is unique per message (log records carry their creation time,
+            # CLIENT_CLOSED the connection's uid, MESSAGE_TRAFFIC its sequence numbers, TIMING its send time) are the same
+            # message at every receiver: they take part in the "same relative order at any two receivers" check.
+            # (CLIENT_INFO, FAILED_MESSAGE, ACTIVE_CLIENTS can be re-sent with identical content and are left out.)
+            import hashlib
+
+            self.received_log[m.idx].append(("M", t, hashlib.sha1(fr.payload).hexdigest()[:12]))
         if t == P.MT_ACKNOWLEDGE:
             if m.id_pending and m.connected:
                 self._learn_dynamic_id(m, fr.dest_mod_id)
@@ -986,10 +995,17 @@ class World:
 
     def final_checks(self):
         if "order" in self.oracles:
-            logs = {i: l for i, l in self.received_log.items() if l}
+            logs = {}
+            for i, l in self.received_log.items():
+                cnt = Counter(l)
+                l = [x for x in l if cnt[x] == 1 or isinstance(x, int)]  # identical manager records are not identifiable
+                if l:
+                    logs[i] = l
             for i, log in logs.items():
                 last = {}
                 for seq in log:
+                    if not isinstance(seq, int):
+                        continue
                     snd = self.pubs[seq]["c"]
                     if snd in last and last[snd] > seq:
                         self.viol("order/per-sender", f"conn {i} received publish #{seq} of sender conn {snd} after its later publish #{last[snd]}")
@@ -1006,7 +1022,7 @@ class World:
                     if ra != rb:
                         self.viol("order/receivers-disagree", f"conns {keys[ai]} and {keys[bi]} received their common messages in different "
                                   f"relative order: {ra[:12]} vs {rb[:12]}")
-                    senders = {self.pubs[x]["c"] for x in common}
+                    senders = {self.pubs[x]["c"] if isinstance(x, int) else "manager" for x in common}
                     if len(senders) >= 2:
                         self.shapes.add(("pair-order", min(len(common), 6), min(len(senders), 4)))
 
